@@ -263,6 +263,15 @@ struct C05 : Check {
 				if (lk == 0) f.data += "\n";
 				else if (lk == 1) f.data += gen_line(r, r.range(200, 1200), A_UTF8_MIX) + "\n";
 				else if (lk == 2) f.data += utf8_enc(0x627) + utf8_enc(0x644) + utf8_enc(0x64e) + utf8_enc(0x633) + " abc " + utf8_enc(0x200d) + utf8_enc(0x645) + utf8_enc(0x200c) + "\n";
+				else if (lk == 3 && r.chance(1, 2)) {
+					// a right-to-left line with a double-width character or a tab straddling the window's edge
+					std::string l;
+					long k = p.cols + r.range(-3, 1);
+					for (long q = 0; q < k; q++) l += utf8_enc(0x628);
+					l += r.chance(1, 2) ? utf8_enc(0x4e2d) : std::string("\t");
+					l += "x" + utf8_enc(0x4e2d) + utf8_enc(0x628);
+					f.data += l + "\n";
+				}
 				else if (lk == 3) f.data += "\t\tint main(void) { return f(a[1], \"s\"); } /* c */\n";
 				else f.data += gen_line(r, r.range(0, 70), r.chance(1, 2) ? A_UTF8_MIX : A_ASCII_WORDS) + "\n";
 			}
